@@ -14,6 +14,7 @@ import oracle_edges as oe
 from corr_graph import ScriptedEdge
 
 from graphslam.graph import Graph
+from graphslam.edge.base_edge import BaseEdge
 from graphslam.vertex import Vertex
 from graphslam.edge.edge_odometry import EdgeOdometry
 from graphslam.edge.edge_landmark import EdgeLandmark
@@ -23,6 +24,42 @@ from graphslam.pose.se2 import PoseSE2
 from graphslam.pose.se3 import PoseSE3
 
 warnings.simplefilter('ignore')
+
+
+class RangeNumEdge(BaseEdge):
+    """a user edge that defines only its error (range between two positions); its Jacobians are the numerical ones of BaseEdge.  The error does
+    not depend on the orientation of a pose at all"""
+
+    def calc_error(self):
+        n = min(len(self.vertices[0].pose.position), len(self.vertices[1].pose.position))
+        d = np.asarray(self.vertices[0].pose.position)[:n] - np.asarray(self.vertices[1].pose.position)[:n]
+        return np.array([math.sqrt(float(d @ d)) - float(self.estimate)])
+
+    def is_valid(self):
+        return True
+
+
+def fresh_edge(e, byid):
+    """the edge as a NEWLY CONSTRUCTED object of the same class holding the same public data, bound by id to the given vertices: nothing an edge
+    object may have remembered from earlier evaluations comes along (built-in classes; other classes: a shallow copy)"""
+    if type(e) is EdgeOdometry:
+        e2 = EdgeOdometry(list(e.vertex_ids), e.information, e.estimate)
+    elif type(e) is EdgeLandmark:
+        e2 = EdgeLandmark(list(e.vertex_ids), e.information, e.estimate, offset=e.offset, offset_id=e.offset_id)
+    else:
+        e2 = copy.copy(e)
+    e2.vertices = [byid[i] for i in e2.vertex_ids]
+    return e2
+
+
+def fresh_graph(g):
+    """a newly built Graph over newly built vertices and edges holding the same ids, poses (copies), flags, measurements and information"""
+    vs = [Vertex(v.id, v.pose.copy(), fixed=bool(v.fixed)) for v in g._vertices]
+    byid = {v.id: v for v in vs}
+    es = [fresh_edge(e, byid) for e in g._edges]
+    for e in es:
+        e.vertices = None
+    return Graph(es, vs)
 
 
 def dense_system(g):
@@ -37,8 +74,7 @@ def dense_system(g):
     H = np.zeros((N, N))
     for e0 in g._edges:
         # the edge evaluated at THIS graph's vertices, found by id -- whatever Vertex objects the library left the edge bound to
-        e = copy.copy(e0)
-        e.vertices = [byid[i] for i in e.vertex_ids]
+        e = fresh_edge(e0, byid)
         err = np.asarray(e.calc_error(), dtype=np.float64).reshape(-1)
         Js = [np.asarray(J, dtype=np.float64) for J in e.calc_jacobians()]
         Om = np.asarray(e.information, dtype=np.float64)
@@ -71,9 +107,7 @@ def _independent_view(g):
     byid = {v.id: v for v in g._vertices}
     es = []
     for e in g._edges:
-        e2 = copy.copy(e)
-        e2.vertices = [byid[i] for i in e2.vertex_ids]
-        es.append(e2)
+        es.append(fresh_edge(e, byid))
     return _View(g._vertices, es)
 
 
@@ -370,6 +404,21 @@ def fixed_vertices(seed, n):
                 fails.append({'law': 'vertices created with the fixed flag set (keyword, third positional argument, numpy bool or 1) are not fixed: ids %s' % lost[:3],
                               'seed': seed, 'case': i, 'edge': 'graph'})
                 continue
+        if rng.random() < 0.3 and len(vs) >= 2 and mode != 'all_fixed':
+            # a range measurement (error-only user edge, numerical Jacobians) FROM a vertex that is, or is about to be, fixed
+            a = vs[0] if ffp else next((v for v in vs if v.fixed), vs[0])
+            b = rng.choice([v for v in vs if v is not a])
+            n_ = min(len(a.pose.position), len(b.pose.position))
+            dist = float(np.linalg.norm(np.asarray(a.pose.position)[:n_] - np.asarray(b.pose.position)[:n_]))
+            if dist > 0.2:
+                keep = {k_: getattr(g, k_) for k_ in ('_verif_listed', '_verif_fixed_ids') if hasattr(g, k_)}
+                es2 = list(g._edges) + [RangeNumEdge([a.id, b.id], np.array([[rng.uniform(0.5, 5.0)]]), dist + rng.gauss(0, 0.01))]
+                for x in es2:
+                    x.vertices = None
+                g = Graph(es2, list(vs))
+                for k_, val in keep.items():
+                    setattr(g, k_, val)
+                vs = g._vertices
         flags0 = [bool(v.fixed) for v in vs]
         before = [np.array(v.pose).copy() for v in vs]
         iters = rng.randint(1, 20)
@@ -449,6 +498,14 @@ def fixed_vertices(seed, n):
         for v in vs:       # perturb, so that the released vertex has something to do
             if not v.fixed:
                 d = np.array([rng.gauss(0, .05) for _ in range(v.pose.COMPACT_DIMENSIONALITY)])
+                v.pose = v.pose + d
+        if rng.random() < 0.5:
+            # ... and a vertex that STAYS fixed is re-anchored: the caller assigns it a new pose (a corrected survey); the next step is the step
+            # of the graph as it is now
+            still = [v for v in vs if v.fixed]
+            if still:
+                v = rng.choice(still)
+                d = np.array([rng.gauss(0, .3) for _ in range(v.pose.COMPACT_DIMENSIONALITY)])
                 v.pose = v.pose + d
         H, b, off = dense_system(g)
         if np.linalg.cond(H) > 1e10:
@@ -777,6 +834,59 @@ def representation_independence(seed, n):
             for p in (p1, p2):
                 if os.path.exists(p):
                     os.remove(p)
+    # the SAME records in another line order of the .g2o file: vertex lines keep their relative order, edge lines theirs, PARAMS lines stay first,
+    # but edges are interleaved with the vertices (incremental loggers write an edge as soon as it is measured, possibly before the VERTEX line
+    # of its second endpoint): same graph, same chi2, same optimization result
+    for i in range(max(2, n // 3)):
+        kind = rng.choice(['SE2', 'SE3'])
+        g0, _ = oe.build_graph(rng, kind, nv=rng.randint(3, 6), landmarks=(kind == 'SE3'), noise=0.02, pert=0.03, info_cross=True)
+        p1 = os.path.join(tempfile.gettempdir(), 'verif_c08_%d_e.g2o' % os.getpid())
+        p2 = os.path.join(tempfile.gettempdir(), 'verif_c08_%d_f.g2o' % os.getpid())
+        try:
+            for k_, e in enumerate(g0._edges):
+                if hasattr(e, 'offset_id'):
+                    e.offset_id = 10 + k_          # one parameter record per observation
+            g0.to_g2o(p1)
+            lines = [l for l in open(p1).read().split('\n') if l.strip()]
+            par = [l for l in lines if l.startswith('PARAMS')]
+            ver = [l for l in lines if l.startswith('VERTEX')]
+            edg = [l for l in lines if l.startswith('EDGE')]
+            if len(par) + len(ver) + len(edg) != len(lines):
+                continue
+            merged, a_, b_ = [], 0, 0
+            while a_ < len(ver) or b_ < len(edg):
+                if b_ >= len(edg) or (a_ < len(ver) and rng.random() < 0.5):
+                    merged.append(ver[a_]); a_ += 1
+                else:
+                    merged.append(edg[b_]); b_ += 1
+            with open(p2, 'w') as f:
+                f.write('\n'.join(par + merged) + '\n')
+            ga, gb = Graph.from_g2o(p1), Graph.from_g2o(p2)
+            evals += 1
+            if len(ga._edges) != len(gb._edges) or len(ga._vertices) != len(gb._vertices):
+                fails.append({'law': 'the same .g2o records with edge lines interleaved between the vertex lines load as %d vertices / %d edges instead of %d / %d'
+                                     % (len(gb._vertices), len(gb._edges), len(ga._vertices), len(ga._edges)), 'seed': seed, 'case': i, 'kind': kind, 'edge': 'graph',
+                              'file': '\n'.join(par + merged)[:1500]})
+                continue
+            ca, cb = ga.calc_chi2(), gb.calc_chi2()
+            if not abs(ca - cb) <= 1e-9 * (1 + abs(ca)):
+                fails.append({'law': 'interleaving edge and vertex lines of a .g2o file changes chi2: %r vs %r' % (cb, ca), 'seed': seed, 'case': i, 'kind': kind, 'edge': 'graph'})
+                continue
+            ga.optimize(tol=0.0, max_iter=2, verbose=False)
+            gb.optimize(tol=0.0, max_iter=2, verbose=False)
+            pb = {v.id: np.array(v.pose) for v in gb._vertices}
+            for va in ga._vertices:
+                q = pb.get(va.id)
+                if q is None or not (poses_close(np.array(va.pose), q, 1e-6 * (1 + float(np.abs(np.array(va.pose)).max())))
+                                     or (kind == 'SE2' and np.allclose(np.array(va.pose)[:2], q[:2], atol=1e-6) and abs(math.remainder(float(va.pose[2] - q[2]), 2 * math.pi)) < 1e-6)):
+                    fails.append({'law': 'interleaving edge and vertex lines of a .g2o file changes the optimization result', 'seed': seed, 'case': i, 'kind': kind, 'edge': 'graph'})
+                    break
+        except Exception as ex:  # noqa
+            fails.append({'law': 'g2o line interleaving raised %r' % (ex,), 'seed': seed, 'case': i, 'edge': 'graph'})
+        finally:
+            for p in (p1, p2):
+                if os.path.exists(p):
+                    os.remove(p)
     # the known finding, deterministic
     c1, c2 = sign_finding_example()
     evals += 1
@@ -892,6 +1002,29 @@ def linear_optimum(seed, n):
             continue
         if not abs(res.final_chi2 - chi_opt) <= (1e-6 * (1 + chi_opt / 2.0 ** info_pow) + 1e-9 * scale ** 2 * (1e-6 if far else 1)) * 2.0 ** info_pow:
             fails.append({'law': 'reported final_chi2 %r differs from the chi2 of the optimum %r' % (res.final_chi2, chi_opt), 'seed': seed, 'case': i, 'edge': 'graph'})
+            continue
+        if rng.random() < 0.35:
+            # afterwards every point is pinned to surveyed coordinates (all vertices fixed, new positions): nothing is left to solve for; the
+            # positions stay and the report is the chi2 of THAT state (not of anything evaluated earlier on this Graph object)
+            xp = np.array([rng.gauss(0, 5.0) for _ in range(N)])
+            for k, v in enumerate(vlist):
+                v.pose = P(list(xp[k * d:(k + 1) * d]))
+                v.fixed = True
+            chi_pin = float(np.sum((A @ xp - y) ** 2)) * 2.0 ** info_pow
+            try:
+                res2 = g.optimize(tol=1e-10, max_iter=5, fix_first_pose=rng.random() < 0.5, verbose=False)
+            except Exception as ex:  # noqa
+                fails.append({'law': 'optimize of an all-fixed linear graph raised %r' % (ex,), 'seed': seed, 'case': i, 'edge': 'graph'})
+                continue
+            evals += 1
+            got2 = np.concatenate([np.asarray(v.pose) for v in vlist])
+            if not np.array_equal(got2, xp):
+                fails.append({'law': 'an all-fixed linear graph moved', 'seed': seed, 'case': i, 'edge': 'graph', 'max_abs_diff': float(np.abs(got2 - xp).max())})
+            elif not (abs(res2.initial_chi2 - chi_pin) <= 1e-9 * (1 + chi_pin) and abs(res2.final_chi2 - chi_pin) <= 1e-9 * (1 + chi_pin)
+                      and abs(g.calc_chi2() - chi_pin) <= 1e-9 * (1 + chi_pin)):
+                fails.append({'law': 'after pinning every point to new coordinates (all vertices fixed) optimize() reports initial_chi2 %r / final_chi2 %r, the chi2 of '
+                                     'that state is %r (the graph object had been optimized before)' % (res2.initial_chi2, res2.final_chi2, chi_pin),
+                              'seed': seed, 'case': i, 'edge': 'graph'})
     return evals, fails
 
 
@@ -1202,6 +1335,11 @@ def local_convergence(seed, n, scale=1.0):
             k_a = rng.randrange(1, nv)
             g._vertices[k_a].fixed = rng.choice([np.bool_(True), 1])       # anchored where it currently is
             noise_free = False
+        lms_ = [v for v in g._vertices if isinstance(v.pose, (PoseR2, PoseR3))]
+        if kind in ('SE2', 'SE3') and lms_ and rng.random() < 0.25:
+            # a surveyed beacon: one landmark is held where it currently is (a fixed vertex narrower than a pose, anywhere in the list)
+            rng.choice(lms_).fixed = True
+            noise_free = False
         info_pow = rng.choice([0, 0, 0, 0, -30, -40])
         if info_pow:
             for e in g._edges:
@@ -1267,19 +1405,45 @@ def stale_cache_sequences(seed, n):
             else:
                 g2 = Graph(list(g._edges), list(g._vertices))
                 g2.calc_chi2()
+            how = rng.choice(['rebind', 'in_place', 'in_place'])
             for v in g._vertices[1:]:
                 d = np.array([rng.gauss(0, .2) for _ in range(v.pose.COMPACT_DIMENSIONALITY)])
-                v.pose = v.pose + d
-            ref = copy.deepcopy(g)
+                if how == 'rebind':
+                    v.pose = v.pose + d
+                else:        # the caller edits the numbers of the SAME pose object (poses are arrays): v.pose[0] += 0.5, v.pose[:] = ..., v.pose.normalize()
+                    np.ndarray.__setitem__(v.pose, slice(None), np.asarray(v.pose + d, dtype=np.float64))
+                    if isinstance(v.pose, PoseSE3) and rng.random() < 0.3:
+                        np.ndarray.__setitem__(v.pose, slice(3, 7), np.asarray(v.pose)[3:] * 1.0002)
+                        v.pose.normalize()
+            frozen = None
+            if seq == 'optimize_then_edit' and rng.random() < 0.4:
+                cand = [k for k, v in enumerate(g._vertices) if k > 0 and not v.fixed]
+                if len(cand) >= 2:
+                    frozen = rng.choice(cand)
+                    g._vertices[frozen].fixed = True          # a vertex that was free in the earlier call is held from now on
+            seq = '%s/%s%s' % (seq, how, '/freeze' if frozen is not None else '')
+            ref = fresh_graph(g)           # newly constructed vertices and edges holding the same numbers: a graph without a past
             c_now = ref.calc_chi2()
-            res = g.optimize(tol=0.0, max_iter=rng.randint(1, 3), verbose=False)
+            iters = rng.randint(1, 3)
+            res = g.optimize(tol=0.0, max_iter=iters, verbose=False)
             evals += 1
             if res.initial_chi2 != c_now:
                 fails.append({'law': 'initial_chi2 %r is not the chi2 %r of the state optimize() started from (sequence %s)' % (res.initial_chi2, c_now, seq),
                               'seed': seed, 'case': i, 'kind': kind, 'edge': 'graph'})
                 continue
-            if res.final_chi2 != copy.deepcopy(g).calc_chi2():
+            if res.final_chi2 != fresh_graph(g).calc_chi2():
                 fails.append({'law': 'final_chi2 differs from calc_chi2() of the returned graph (sequence %s)' % seq, 'seed': seed, 'case': i, 'edge': 'graph'})
+                continue
+            # no hidden state: the graph with a past and the graph without one take the same steps
+            res_ref = ref.optimize(tol=0.0, max_iter=iters, verbose=False)
+            c1 = [it.chi2 for it in res.iteration_results if it.chi2 is not None]
+            c2 = [it.chi2 for it in res_ref.iteration_results if it.chi2 is not None]
+            okc = len(c1) == len(c2) and all(abs(a - b) <= 1e-7 * (1 + abs(b)) or not (np.isfinite(a) and np.isfinite(b)) for a, b in zip(c1, c2))
+            okp = all(poses_close(np.array(v1.pose), np.array(v2.pose), 1e-6 * (1 + float(np.abs(np.array(v2.pose)).max()))) or not np.all(np.isfinite(np.array(v2.pose)))
+                      for v1, v2 in zip(g._vertices, ref._vertices))
+            if np.isfinite(res_ref.final_chi2) and res_ref.final_chi2 < 1e6 * (1 + c_now) and not (okc and okp):
+                fails.append({'law': 'a Graph object with a history (sequence %s) does not take the steps of a newly built graph holding the same poses, flags and '
+                                     'measurements: per-iteration chi2 %s vs %s' % (seq, c1, c2), 'seed': seed, 'case': i, 'kind': kind, 'edge': 'graph'})
         except Exception as ex:  # noqa
             fails.append({'law': 'sequence %s raised %r' % (seq, ex), 'seed': seed, 'case': i, 'edge': 'graph'})
     # a user edge type whose chi2 is not the plain quadratic form (it overrides calc_chi2): the graph's chi2 is the sum of what the edges' calc_chi2()
